@@ -7,6 +7,8 @@ def run(req):
     a = req.get("args", {})
     if fn in ("trajgrad.trap_grad", "trajgrad.min_trap_grad"):
         return _trap(fn, a)
+    if fn == "fourier.fft":
+        return _fft(a)
     if fn == "app.lls":
         return _lls(a)
     if fn == "prox.check":
@@ -855,3 +857,52 @@ def _lls(a):
         elif Fx > Fref + tol * max(1.0, abs(Fref)):
             bad.append("objective %.8g exceeds the optimum %.8g (relative gap %.3g)" % (Fx, Fref, (Fx - Fref) / max(1.0, abs(Fref))))
     return dict(reproduced=bool(bad), detail="; ".join(bad) or "optimal within tolerance, inputs untouched")
+
+
+# ----------------------------------------------------------------------------- C05 fft
+def _dft_matrix(n, center, inverse, norm):
+    c = n // 2 if center else 0
+    j = np.arange(n) - c
+    W = np.exp((2j if inverse else -2j) * np.pi * np.outer(j, j) / n)
+    if norm == "ortho":
+        W = W / np.sqrt(n)
+    elif inverse:
+        W = W / n
+    return W
+
+
+def _fft(a):
+    import sigpy as sp
+    from specs_np import spec_resize
+    rs = np.random.RandomState(int(a.get("seed", 0)))
+    shape, axes, center, norm = tuple(a["shape"]), a.get("axes"), bool(a.get("center", True)), a.get("norm", "ortho")
+    inverse, oshape, dtype = bool(a.get("inverse")), a.get("oshape"), np.dtype(a.get("dtype", "complex128"))
+    x = rs.standard_normal(shape) + (1j * rs.standard_normal(shape) if dtype.kind == "c" else 0)
+    x = x.astype(dtype)
+    x0 = x.copy()
+    f = sp.ifft if inverse else sp.fft
+    got = f(x, oshape=oshape, axes=axes, center=center, norm=norm)
+    bad = []
+    if not np.array_equal(x, x0):
+        bad.append("input modified")
+    want_dt = dtype if dtype.kind == "c" else np.dtype("complex64")
+    if got.dtype != want_dt:
+        bad.append("dtype %s, expected %s" % (got.dtype, want_dt))
+    ref = x.astype(np.complex128)
+    if oshape is not None:
+        ref = spec_resize(ref, oshape)
+    nd = ref.ndim
+    ax = range(nd) if axes is None else sorted(set(q % nd for q in axes))
+    for d in ax:
+        W = _dft_matrix(ref.shape[d], center, inverse, norm)
+        ref = np.moveaxis(np.tensordot(W, ref, axes=([1], [d])), 0, d)
+    tol = 1e-4 if want_dt == np.dtype("complex64") else 1e-9
+    if got.shape != ref.shape or np.max(np.abs(got - ref)) > tol * max(1.0, np.max(np.abs(ref))):
+        bad.append("differs from the DFT-matrix definition by %g" % (np.max(np.abs(got - ref)) if got.shape == ref.shape else -1))
+    if norm == "ortho" and oshape is None:
+        g2 = (sp.fft if inverse else sp.ifft)(got, axes=axes, center=center, norm=norm)
+        if np.max(np.abs(g2 - x)) > 10 * tol * max(1, np.max(np.abs(x))):
+            bad.append("ifft(fft(x)) != x (%g)" % np.max(np.abs(g2 - x)))
+        if abs(np.linalg.norm(got) - np.linalg.norm(x)) > 10 * tol * max(1, np.linalg.norm(x)):
+            bad.append("norm not preserved")
+    return dict(reproduced=bool(bad), detail="; ".join(bad) or "matches the centred DFT definition")
